@@ -8,6 +8,8 @@ import (
 	"sort"
 	"strings"
 
+	"google.golang.org/protobuf/reflect/protoreflect"
+
 	"csverify/core"
 	"csverify/e3"
 	"csverify/sym"
@@ -129,8 +131,8 @@ func fieldShapes(mc *msgCode) map[string]string {
 		out[key+"_"] = groupShape(f) // gogo special names
 	}
 	if mc.unit.GenFile != nil {
-		for _, m := range allGenMessagesWithMaps(mc.unit.GenFile) {
-			for _, e := range m.Extensions {
+		for _, exts := range extensionGroups(mc.unit.GenFile) {
+			for _, e := range exts {
 				out["ext:E_"+e.GoIdent.GoName] = "extension " + e.Desc.Kind().String()
 			}
 		}
@@ -328,8 +330,8 @@ func extensionAsserts(r *core.Result, ex *e3.Expansion, u *e3.Unit, mc *msgCode)
 	if mc.unit.GenFile == nil {
 		return
 	}
-	for _, m := range allGenMessagesWithMaps(mc.unit.GenFile) {
-		for _, e := range m.Extensions {
+	for _, exts := range extensionGroups(mc.unit.GenFile) {
+		for _, e := range exts {
 			if e.Extendee == nil || e.Extendee.GoIdent != mc.desc.GoIdent {
 				continue
 			}
@@ -404,7 +406,11 @@ func extensionAsserts(r *core.Result, ex *e3.Expansion, u *e3.Unit, mc *msgCode)
 					}
 					got := info.TypeOf(ta.Type)
 					okT := got != nil && types.Identical(got, want)
-					r.GroupOb("M-assert", "extension value assertions name the Go type stored by the "+u.Combo.Runtime+" runtime", fmt.Sprintf("%s.%s %s in %s", u.File.Pkg, mc.goName, e.Desc.Kind(), fd.Name.Name), mc.pos(ex, ta.Pos()), okT,
+					grpName := "extension value assertions name the Go type stored by the " + u.Combo.Runtime + " runtime"
+					if e.Desc.Cardinality() == protoreflect.Repeated {
+						grpName = "repeated extensions: value assertions name the slice type the runtimes store"
+					}
+					r.GroupOb("M-assert", grpName, fmt.Sprintf("%s.%s %s in %s", u.File.Pkg, mc.goName, e.Desc.Kind(), fd.Name.Name), mc.pos(ex, ta.Pos()), okT,
 						fmt.Sprintf("the value is asserted as %s but the runtime's GetExtension returns %s: %s() panics (interface conversion) as soon as the extension is set", types.TypeString(got, shortQual), types.TypeString(want, shortQual), fd.Name.Name))
 					return true
 				})
